@@ -118,6 +118,9 @@ type exchangeSpec struct {
 	// differently configured header rewriter (no trust in upstream headers, another instance name), built
 	// before (1) or after (2) the forwarder under test and used for a request of its own.
 	neighbour int
+	// slow: the client reads slowly - its receive window is small, and after the first bytes of the body it pauses
+	// (paused is closed) until resume is closed; the proxy meanwhile waits in a write with response bytes in hand
+	slow *slowClient
 	// client behaviour
 	clientCloseWhenBackendHasRequest bool // client goes away while the backend is stalled before responding
 	clientCloseAfterBody             int  // >0: client closes after reading that many body bytes (backend stalled mid-body)
@@ -370,6 +373,11 @@ func runExchange(spec exchangeSpec) exchangeResult {
 		res.hung = "cannot reach proxy listener"
 		return res
 	}
+	if spec.slow != nil {
+		cc.r.mu.Lock()
+		cc.r.window = spec.slow.window
+		cc.r.mu.Unlock()
+	}
 	_, _ = cc.Write(spec.rawRequest)
 
 	type readResult struct {
@@ -398,6 +406,18 @@ func runExchange(spec exchangeSpec) exchangeResult {
 					rr.berr = errClientClosed
 				}
 				cc.Close()
+			} else if spec.slow != nil {
+				first := make([]byte, spec.slow.readFirst)
+				n, e := io.ReadFull(rr.resp.Body, first)
+				rr.body, rr.berr = first[:n], e
+				close(spec.slow.paused)
+				if e == nil {
+					waitFor(spec.slow.resume)
+					rest, e := io.ReadAll(rr.resp.Body)
+					rr.body, rr.berr = append(rr.body, rest...), e
+				} else if e == io.EOF || e == io.ErrUnexpectedEOF {
+					rr.berr = nil // the body was shorter than the first portion
+				}
 			} else {
 				rr.body, rr.berr = io.ReadAll(rr.resp.Body)
 			}
@@ -446,6 +466,11 @@ func runExchange(spec exchangeSpec) exchangeResult {
 	out.order = strings.Join(order, ",")
 	out.events = append([]listenerEvent(nil), res.events...)
 	return out
+}
+
+type slowClient struct {
+	window, readFirst int
+	paused, resume    chan struct{}
 }
 
 var errClientClosed = fmt.Errorf("client closed the connection on purpose")
